@@ -469,7 +469,11 @@ func TestC15Race(t *testing.T) {
 	bin := filepath.Join(dir, "harness.race.test")
 	idx := 0
 	build := exec.Command("go1.26.8", "test", "-c", "-race", "-tags", "verif,tr", "-o", bin, ".")
-	build.Env = append(os.Environ(), "GOFLAGS=-mod=mod", "GOPROXY=off", "GOSUMDB=off", "GOTOOLCHAIN=local", "CGO_ENABLED=1")
+	goflags := "GOFLAGS=-mod=mod"
+	if mf := os.Getenv("VERIF_MODFILE"); mf != "" { // mutant trial: build against the tree ./check was pointed at
+		goflags += " -modfile=" + mf
+	}
+	build.Env = append(os.Environ(), goflags, "GOPROXY=off", "GOSUMDB=off", "GOTOOLCHAIN=local", "CGO_ENABLED=1")
 	if out, err := build.CombinedOutput(); err != nil {
 		em.Marker("begin", idx)
 		em.Emit(Rec{Idx: idx, Kind: "race-build-failed", Desc: string(out), Coq: "CStale 0", Tags: []string{"race:build-failed"}})
